@@ -1118,6 +1118,10 @@ var verifAPI = map[string]intrinsic{
 		t.run.randPinned = int64(t.run.concretize(a[0].(*Term), "rand"))
 		return nil
 	},
+	"verifExpectMakeEq": func(t *Thread, a []Value) Value {
+		t.run.makeEq[argStr(a[0])] = a[1].(*Term)
+		return nil
+	},
 	"verifCut": func(t *Thread, a []Value) Value {
 		t.run.cuts = append(t.run.cuts, argStr(a[0]))
 		return nil
